@@ -275,6 +275,16 @@ func enumerate(quick bool, yield func(Case)) {
 		}
 	}
 
+	// 1b. the same with a reader that lags behind: the forwarder's buffer (5) is full when the convert function
+	// panics, so the error item has to wait for the reader
+	for _, n := range []int{2, 3} {
+		for _, at := range []int{6, 7} {
+			for _, k := range pncKinds {
+				add(Case{Family: "merge-schema", Via: "convert-lag", Sources: n, Chunks: 10, PanicSrc: 0, PanicAt: at, Kind: k})
+			}
+		}
+	}
+
 	// 2. one failing node
 	type nat struct{ native, peers string }
 	errNat := []nat{{"invoke", "invoke"}, {"stream-call", "invoke"}, {"stream-item", "invoke"}, {"stream-item", "transform"},
